@@ -528,5 +528,110 @@ theorem agree_apply_rename (v : View) (d : Disk) (p : Progress) : Agree v d (d.a
   | none => exact Agree.refl v d
   | some x => exact ⟨fun _ _ => rfl, fun _ _ => rfl⟩
 
+
+/-! ### histories: the shape of the log is an invariant of `step` -/
+
+theorem fresh_empty_mkdir (t r : Nat) (rows : List (List Int)) (n : Nat) : Fresh View.empty (.mkdir t r rows n) := by
+  simp [Fresh, View.empty]
+theorem fresh_empty_writeFile (t r i : Nat) : Fresh View.empty (.writeFile t r i) := by simp [Fresh, View.empty]
+theorem fresh_empty_writeDv (t r d : Nat) (l : List Nat) : Fresh View.empty (.writeDv t r d l) := by
+  simp [Fresh, View.empty]
+theorem fresh_empty_rmdir (t r : Nat) : Fresh View.empty (.rmdir t r) := by simp [Fresh, View.empty]
+
+/-- The write-ahead steps of any statement touch nothing an (empty) view references: in particular
+they never change `manifest.json`. -/
+theorem dataSteps_fresh_empty (s : State) (op : Op) : ∀ x ∈ dataSteps s op, Fresh View.empty x := by
+  intro x hx
+  cases op with
+  | create name n => simp [dataSteps] at hx
+  | drop name => simp [dataSteps] at hx
+  | reopen => simp [dataSteps] at hx
+  | vacuum => simp [dataSteps] at hx
+  | insert name rows =>
+    simp only [dataSteps] at hx
+    split at hx
+    · cases hx
+    · split at hx
+      · cases hx
+      · simp only [List.mem_append, List.mem_singleton, List.mem_map] at hx
+        rcases hx with rfl | ⟨i, _, rfl⟩
+        · exact fresh_empty_mkdir _ _ _ _
+        · exact fresh_empty_writeFile _ _ _
+  | delete name c k =>
+    simp only [dataSteps] at hx
+    split at hx
+    · cases hx
+    · simp only [List.mem_map] at hx
+      obtain ⟨y, _, rfl⟩ := hx
+      exact fresh_empty_writeDv _ _ _ _
+  | compact name =>
+    simp only [dataSteps] at hx
+    split at hx
+    · cases hx
+    · split at hx
+      · cases hx
+      · simp only [List.mem_append, List.mem_singleton, List.mem_map] at hx
+        rcases hx with rfl | ⟨i, _, rfl⟩
+        · exact fresh_empty_mkdir _ _ _ _
+        · exact fresh_empty_writeFile _ _ _
+
+/-- The records a statement logs are never `Begin` / `End`. -/
+theorem txnOf_nonbracket (s : State) (op : Op) (es : List Rec) (h : txnOf s op = some es) :
+    ∀ e ∈ es, e.isBracket = false := by
+  intro e he
+  cases op with
+  | reopen => simp [txnOf] at h
+  | vacuum => simp [txnOf] at h
+  | create name n =>
+    simp only [txnOf] at h
+    split at h
+    · cases h
+    · cases h; simp at he; subst he; rfl
+  | drop name =>
+    simp only [txnOf, Option.map_eq_some_iff] at h
+    obtain ⟨ti, _, rfl⟩ := h
+    simp only [List.mem_append, List.mem_singleton, List.mem_flatMap, List.mem_map] at he
+    rcases he with rfl | ⟨r, _, rfl | ⟨x, _, rfl⟩⟩ <;> rfl
+  | insert name rows =>
+    simp only [txnOf, Option.map_eq_some_iff] at h
+    obtain ⟨ti, _, rfl⟩ := h
+    split at he
+    · cases he
+    · simp at he; subst he; rfl
+  | delete name c k =>
+    simp only [txnOf, Option.map_eq_some_iff] at h
+    obtain ⟨ti, _, rfl⟩ := h
+    simp only [List.mem_map] at he
+    obtain ⟨x, _, rfl⟩ := he
+    rfl
+  | compact name =>
+    simp only [txnOf] at h
+    split at h
+    · cases h
+    · split at h
+      · cases h
+      · cases h
+        simp only [List.mem_append, List.mem_map, List.mem_flatMap] at he
+        rcases he with (he | ⟨r, _, rfl⟩) | ⟨r, _, x, _, rfl⟩
+        · split at he
+          · cases he
+          · simp at he; subst he; rfl
+        · rfl
+        · rfl
+
+theorem rewriteRecs_balanced (v : View) (hc : Canon v) : Balanced (rewriteRecs v) := by
+  let body := v.rowsets.map (fun x => Rec.addRowSet x.1 x.2) ++ v.dvs.map (fun x => Rec.addDV x.1 x.2.1 x.2.2) ++ v.tableLog
+  have hnb : ∀ e ∈ body, e.isBracket = false := by
+    intro e he
+    simp only [body, List.mem_append, List.mem_map] at he
+    rcases he with (⟨x, _, rfl⟩ | ⟨x, _, rfl⟩) | he
+    · rfl
+    · rfl
+    · have := hc.logTable e he; cases e <;> simp_all [Rec.isTable, Rec.isBracket]
+  have hrw : rewriteRecs v = [] ++ ([Rec.begin] ++ body ++ [Rec.fin]) := by
+    simp [rewriteRecs, body, List.append_assoc]
+  rw [hrw]
+  exact (replay_closed_txn [] body rfl hnb).2
+
 end Crash
 end RlModel
